@@ -303,6 +303,7 @@ class SimSocket:
         self.failed_call = None
         self.target = None
         self.closed_seq = None
+        self.shut = False
         world.ctx().socks.append(self.id)
         no = len(world.open_sockets())
         if no > world.max_open:
@@ -399,7 +400,7 @@ class SimSocket:
             raise OSError(errno.ENOTCONN, "sim: not connected")
         self._check_io_timeout()
         ctx = w.ctx()
-        if conn.broken:
+        if conn.broken or self.shut:
             raise BrokenPipeError(errno.EPIPE, "sim: broken pipe")
         for seg in conn.out:
             if seg[1] != ctx.id:
@@ -482,6 +483,8 @@ class SimSocket:
             raise OSError(errno.ENOTCONN, "sim: not connected")
         self._check_io_timeout()
         ctx = w.ctx()
+        if self.shut:
+            return b""
         if f is not None:
             kind = f["kind"]
             if kind == "eintr":
@@ -564,6 +567,17 @@ class SimSocket:
         if f is not None and f["kind"] == "interrupt":
             _raise_fault(w, f, None)
 
+    def shutdown(self, how, _tls=False):
+        """socket.shutdown(): fails with ENOTCONN on a connection the peer has reset / that never was one."""
+        w = self._w
+        w.event("shutdown", self, int(how))
+        if self.closed:
+            raise OSError(errno.EBADF, "sim: bad file descriptor")
+        conn = self.conn
+        if conn is None or conn.broken:
+            raise OSError(errno.ENOTCONN, "sim: transport endpoint is not connected")
+        self.shut = True
+
     def closed_by_seq(self, seq):
         return self.closed_seq is not None and self.closed_seq <= seq
 
@@ -613,6 +627,22 @@ class SimTLSSocket:
 
     def close(self):
         return self._raw.close(_tls=True)
+
+    def shutdown(self, how):
+        return self._raw.shutdown(how, _tls=True)
+
+    def unwrap(self):
+        """TLS shutdown handshake: needs a live connection."""
+        raw = self._raw
+        raw._w.event("unwrap", raw, None)
+        if raw.closed:
+            raise OSError(errno.EBADF, "sim: bad file descriptor")
+        conn = raw.conn
+        if conn is None or conn.broken or conn.peer_closed:
+            import ssl
+            raise ssl.SSLEOFError(8, "sim: EOF occurred in violation of protocol")
+        raw.wrapper = None
+        return raw
 
     def __repr__(self):
         return "<SimTLSSocket %d>" % self.id
